@@ -45,11 +45,11 @@ if mode == 'raise' then error('c30 raised') end
 return {#KEYS,#ARGV,KEYS[1] or '-',KEYS[2] or '-',ARGV[1] or '-',ARGV[2] or '-'}`
 
 type c30kind struct {
-	name     string
-	ro       bool
-	noSha    bool
-	loadSha  bool
-	make     func(s string) *Lua
+	name    string
+	ro      bool
+	noSha   bool
+	loadSha bool
+	make    func(s string) *Lua
 }
 
 var c30kinds = []c30kind{
@@ -68,15 +68,15 @@ var c30kinds = []c30kind{
 
 // run modes
 const (
-	c30ok         = iota // script returns its tag array
-	c30errPlain          // redis.error_reply('ERR custom failure')
-	c30errNoScript       // redis.error_reply('NOSCRIPT made by the script body')
-	c30errLower          // redis.error_reply('noscript in lower case')
-	c30raise             // error('...')
-	c30fail1             // transport error on the 1st command of the run
-	c30fail2             // ... 2nd
-	c30fail3             // ... 3rd
-	c30loadErr           // SCRIPT LOAD answers with an error reply
+	c30ok          = iota // script returns its tag array
+	c30errPlain           // redis.error_reply('ERR custom failure')
+	c30errNoScript        // redis.error_reply('NOSCRIPT made by the script body')
+	c30errLower           // redis.error_reply('noscript in lower case')
+	c30raise              // error('...')
+	c30fail1              // transport error on the 1st command of the run
+	c30fail2              // ... 2nd
+	c30fail3              // ... 3rd
+	c30loadErr            // SCRIPT LOAD answers with an error reply
 	c30nModes
 )
 
